@@ -26,7 +26,8 @@ LEVEL_TEXT = ("Real child processes (well-behaved, exiting at every step k of th
               ' Also the same client object entered again after earlier uses.'
               ' Also a flooding child that exits 0 on SIGTERM.'
               ' Also a native asyncio deadline (asyncio.timeout) during the grace periods, a 0.1 ms-step sweep of cancellation through the spawn (children looked up in /proc by parent pid), and an unread backlog of 99-130 messages ending in an id-carrying one.'
-              ' Also a child flooding stdout with short lines that are not messages.')
+              ' Also a child flooding stdout with short lines that are not messages.'
+              ' Also a flood without line breaks (repeated attempts, race-dependent), and (virtual time, scripted child) a request pending on the per-request API when the child dies / the context is left.')
 LEVEL_NOTE = ("Trusted: /proc inspection, the spy around anyio.open_process (records pids of every spawn). Wall-clock bound "
               "uses 1.5 s slack; a breach is re-measured once in isolation and only a reproduced breach is a violation "
               "(a single one is inconclusive).")
